@@ -51,6 +51,26 @@ func (g *StressGen) Build() string {
 			return pre + "print(a); return 1;"
 		}
 		return pre + "return a;"
+	case "chain-in-hashkey", "chain-in-hashvalue", "chain-as-callee", "chain-as-member", "chain-assigned-to", "chain-in-case", "chain-as-index":
+		// a long operator chain (a tree n deep, built without recursion by the
+		// parser) in the places where something other than the compiler's
+		// depth-limited walk looks at it first
+		chain := "1" + rep(" + 1", n)
+		switch g.Shape {
+		case "chain-in-hashkey":
+			return "x = { " + chain + " : 1, 2: 2 }; return 1;"
+		case "chain-in-hashvalue":
+			return "x = { 1: " + chain + ", 2: 2 }; return 1;"
+		case "chain-as-callee":
+			return "x = (" + chain + ")(1); return 1;"
+		case "chain-as-member":
+			return "a = {}; x = a.(" + chain + "); return 1;"
+		case "chain-assigned-to":
+			return chain + " = 2; return 1;"
+		case "chain-in-case":
+			return "switch (1) { case " + chain + " { return 2; } } return 1;"
+		}
+		return "a = [1]; return a[" + chain + "];"
 	case "paren":
 		return "return " + rep("(", n) + "1" + rep(")", n) + ";"
 	case "square":
@@ -158,7 +178,8 @@ var stressShapes = []string{"paren", "square", "brace", "minus", "bang", "sqrt",
 	"chain+", "chain&&", "chain..", "chainstr", "index", "dot", "call", "callargs", "array", "hash", "statements", "exprstatements", "comments", "semicolons",
 	"open-paren", "open-square", "open-brace", "open-if", "open-call", "close-only", "ternary-chain", "ternary-cond", "assign-chain",
 	"longident", "longstring", "longnumber", "longregexp", "prefix-mix", "recursion", "mutual-recursion", "recursion-in-loop", "recursion-void", "recursion-by-field", "fault-by-field",
-	"grown-array-string", "grown-hash-string", "grown-array-return", "grown-array-compare", "grown-array-in", "grown-hash-keys-return", "grown-array-print"}
+	"grown-array-string", "grown-hash-string", "grown-array-return", "grown-array-compare", "grown-array-in", "grown-hash-keys-return", "grown-array-print",
+	"chain-in-hashkey", "chain-in-hashvalue", "chain-as-callee", "chain-as-member", "chain-assigned-to", "chain-in-case", "chain-as-index"}
 
 // CrashCase is one no-crash case.
 type CrashCase struct {
@@ -623,7 +644,8 @@ func TestC08Stress(t *testing.T) {
 	k := 0
 	_ = 0
 	deepQuick := map[string]bool{"comments": true, "paren": true, "minus": true, "bang": true, "open-paren": true, "prefix-mix": true, "elseif": true, "chain&&": true, "index": true, "call": true, "if": true,
-		"grown-array-string": true, "grown-hash-string": true, "grown-array-return": true, "grown-array-print": true}
+		"grown-array-string": true, "grown-hash-string": true, "grown-array-return": true, "grown-array-print": true,
+		"chain-in-hashkey": true, "chain-as-callee": true, "chain-as-member": true}
 	for _, shape := range stressShapes {
 		ss := sizes
 		if !thorough() && deepQuick[shape] {
@@ -640,6 +662,12 @@ func TestC08Stress(t *testing.T) {
 			}
 			if shape == "comments" && n >= 2000000 {
 				g.N = 6000000 // 30 MB of nothing but comments
+			}
+			if strings.HasPrefix(shape, "chain-in-hash") && n == 100000 {
+				g.N = 20000 // sorting the pairs of a hash literal prints them: quadratic in the chain length
+			}
+			if strings.HasPrefix(shape, "chain-") && n >= 2000000 {
+				g.N = 6000000 // 24 MB of "+ 1": deep enough for a recursive walk to exhaust the stack
 			}
 			if strings.HasPrefix(shape, "grown-") && n >= 2000000 {
 				g.N = 3000000 // a value nested three million deep costs ~150 MB, no more
